@@ -137,6 +137,15 @@ def call_numpy(it, name, mod, fn, args, kwargs, node, fr):
         if isinstance(v, Val) and fn in ("float32", "float64", "single", "double"):
             return Val(mk("float", v.term), space=v.space)
         return v
+    if fn in ("eye", "identity") and args and is_pyconst(args[0]) and isinstance(pyval(args[0]), int):
+        u = Unk(T("eye", const(pyval(args[0]))))
+        u.is_mat = True
+        u.fresh = True
+        return u
+    if mod == "numpy.linalg" and fn == "inv" and args:
+        u = Unk(T("matinv", to_term(args[0])))
+        u.is_mat = True
+        return u
     if fn == "atleast_2d" and args:
         v = args[0]
         a = as_arr(v)
